@@ -81,7 +81,7 @@ func exhaustiveTable() []caseDef {
 		add(base("renameio.Symlink", shared.OpSymlink, st, tmpSandbox))
 	}
 	for _, st := range states {
-		for _, tmp := range []string{tmpSandbox, tmpForeign, tmpExplicit, tmpExplicitForeign} {
+		for _, tmp := range []string{tmpSandbox, tmpForeign, tmpExplicit, tmpExplicitForeign, tmpExplicitMissing} {
 			add(base("utils.CreateAtomic", shared.OpCreateAtomic, st, tmp))
 		}
 		c := base("utils.CreateAtomic", shared.OpCreateAtomic, st, tmpSandbox)
@@ -113,6 +113,8 @@ func exhaustiveTable() []caseDef {
 		if st != stPresentMode {
 			add(base("utils.CopyFileAtomic", shared.OpCopyAtomic, st, tmpExplicitForeign))
 			add(base("utils.ReplaceFileAtomic", shared.OpReplaceAtomic, st, tmpExplicitForeign))
+			add(base("utils.CopyFileAtomic", shared.OpCopyAtomic, st, tmpExplicitMissing))
+			add(base("utils.ReplaceFileAtomic", shared.OpReplaceAtomic, st, tmpExplicitMissing))
 		}
 	}
 	for _, st := range states {
@@ -475,10 +477,10 @@ func genCase(t *rapid.T) caseDef {
 	variants := []variant{
 		{"renameio.WriteFile", shared.OpWriteFile, all3, []string{tmpSandbox, tmpForeign}},
 		{"renameio.Symlink", shared.OpSymlink, []string{stAbsent, stPresent, stPresentFile, stPresentDir}, []string{tmpSandbox}},
-		{"utils.CreateAtomic", shared.OpCreateAtomic, all3, []string{tmpSandbox, tmpForeign, tmpExplicit, tmpExplicitForeign}},
+		{"utils.CreateAtomic", shared.OpCreateAtomic, all3, []string{tmpSandbox, tmpForeign, tmpExplicit, tmpExplicitForeign, tmpExplicitMissing}},
 		{"utils.CreateAtomic(failing reader)", shared.OpCreateAtomic, []string{stAbsent, stPresent}, []string{tmpSandbox, tmpExplicit}},
-		{"utils.CopyFileAtomic", shared.OpCopyAtomic, all3, []string{tmpSandbox, tmpForeign, tmpExplicit, tmpExplicitForeign}},
-		{"utils.ReplaceFileAtomic", shared.OpReplaceAtomic, all3, []string{tmpSandbox, tmpForeign, tmpExplicit, tmpExplicitForeign}},
+		{"utils.CopyFileAtomic", shared.OpCopyAtomic, all3, []string{tmpSandbox, tmpForeign, tmpExplicit, tmpExplicitForeign, tmpExplicitMissing}},
+		{"utils.ReplaceFileAtomic", shared.OpReplaceAtomic, all3, []string{tmpSandbox, tmpForeign, tmpExplicit, tmpExplicitForeign, tmpExplicitMissing}},
 		{"fstree.Put", shared.OpFstreePut, all3, []string{tmpSandbox, tmpForeign}},
 		{"fstree.Put(nested key)", shared.OpFstreePut, []string{stAbsent, stPresent}, []string{tmpSandbox, tmpForeign}},
 		{"updater.GetFile", shared.OpGetFile, all3, []string{tmpSandbox}},
@@ -508,7 +510,7 @@ func genCase(t *rapid.T) caseDef {
 		c.Perm = rapid.SampledFrom([]uint32{0o644, 0o600, 0o755}).Draw(t, "perm")
 	case shared.OpCreateAtomic, shared.OpCopyAtomic, shared.OpReplaceAtomic:
 		c.Perm = rapid.SampledFrom([]uint32{0, 0, 0o644, 0o600, 0o640}).Draw(t, "mode_option")
-		if c.Tmp != tmpExplicit && c.Tmp != tmpExplicitForeign && c.Perm == 0 {
+		if c.Tmp != tmpExplicit && c.Tmp != tmpExplicitForeign && c.Tmp != tmpExplicitMissing && c.Perm == 0 {
 			c.NilOpts = rapid.Bool().Draw(t, "nil_opts")
 		}
 	}
